@@ -1135,6 +1135,88 @@ open Ndt
             u.add(key, baseline[key]['text'])
     return u
 
+class NpTrN(NpTr):
+    """the same fragment on a normed carrier: `np.abs` / `abs` of a carrier-valued expression is `nrm`, the names in `slices` stand
+    for fixed sliced views (one element each), `EPS` is the parameter `eps`"""
+    CONSTS = {'EPS': 'eps'}
+
+    def __init__(self, names, slices):
+        NpTr.__init__(self, names)
+        self.slices = slices
+
+    def num(self, v):
+        if float(v) == 10.0:
+            return 'ten'
+        raise Unsupported('numeric literal %r' % (v,))
+
+    def e(self, n):
+        src = flat(ast.unparse(n))
+        if src in self.slices:
+            return self.slices[src]
+        if isinstance(n, ast.Call) and ast.unparse(n.func) in ('np.abs', 'abs') and len(n.args) == 1:
+            return '(nrm %s)' % self.e(n.args[0])
+        if isinstance(n, ast.Call) and ast.unparse(n.func) == 'max_abs' and len(n.args) == 2:
+            return '(maxNrm nrm %s %s)' % (self.e(n.args[0]), self.e(n.args[1]))
+        return NpTr.e(self, n)
+
+
+def gen_richerr(status, baseline):
+    """`Richardson._estimate_error`: the two branches reachable from `__call__`, one element each; the branch structure and the
+    factor `fact` are pinned text"""
+    u = Unit('RichErr.lean', '''/- GENERATED by translator/py2lean.py from src/numdifftools/extrapolation.py (Richardson._estimate_error, one element of
+   each reachable branch; `nrm` is np.abs on the carrier of the sequence) — do not edit -/
+import Ndt.Num
+namespace Ndt.Gen
+open Ndt
+variable {K : Type} [Num K] {C : Type} [Sub C]
+
+/-- `max_abs(a, b)` -/
+def maxNrm (nrm : C → K) (a b : C) : K :=
+  let x := nrm a; let y := nrm b; if x < y then y else x
+''')
+    keys = ['richerr.short', 'richerr.main']
+    try:
+        mod = parse('extrapolation.py')
+        mx = [n for n in mod.body if isinstance(n, ast.FunctionDef) and n.name == 'max_abs'][0]
+        if flat(ast.unparse(mx.body[-1])) != 'return np.maximum(np.abs(a), np.abs(b))':
+            raise Unsupported('max_abs changed: ' + ast.unparse(mx.body[-1]))
+        f = funcs_of(find_class(mod, 'Richardson'))['_estimate_error']
+        body = [st for st in f.body if not (isinstance(st, ast.Expr) and isinstance(st.value, ast.Constant))]
+        pinned = ['m = new_sequence.shape[0]', 'm_old = old_sequence.shape[0]', 'cov1 = np.sum(np.abs(rule) ** 2)',
+                  'fact = np.maximum(12.7062047361747 * np.sqrt(cov1), EPS * 10.0)']
+        got = [flat(ast.unparse(st)) for st in body[:4]]
+        if got != pinned:
+            raise Unsupported('_estimate_error prologue changed: ' + ' ; '.join(got)[:200])
+        b1, b2 = body[4], body[5]
+        if not (isinstance(b1, ast.If) and flat(ast.unparse(b1.test)) == 'm_old < 2' and len(b1.body) == 1 and isinstance(b1.body[0], ast.Return)):
+            raise Unsupported('_estimate_error: first branch')
+        if not (isinstance(b2, ast.If) and flat(ast.unparse(b2.test)) == 'm < 2' and isinstance(b2.body[-1], ast.Return)):
+            raise Unsupported('_estimate_error: second branch (unreachable from __call__)')
+        tr = NpTrN(['fact'], {'new_sequence': 'new_sequence', 'steps': 'steps'})
+        short = tr.e(b1.body[0].value)
+        u.add('richerr.short', '/-- branch `m_old < 2`, one element -/\n'
+              'def richErrShortElem (nrm : C → K) (eps fact : K) (new_sequence steps : C) : K :=\n  ' + short)
+        tr2 = NpTrN(['fact'], {'np.diff(new_sequence, axis=0)': '(b - a)', 'new_sequence[1:]': 'b', 'new_sequence[:-1]': 'a',
+                               'old_sequence[-m + 1:]': 'o'})
+        lets, ret = [], None
+        for st in body[6:]:
+            if isinstance(st, ast.Return):
+                ret = tr2.e(st.value)
+            else:
+                lets += tr2.stmt(st)
+        if ret is None:
+            raise Unsupported('_estimate_error: no final return')
+        u.add('richerr.main', '/-- last branch, one element: `a = new_sequence[t]`, `b = new_sequence[t+1]`, `o = old_sequence[-m+1+t]` -/\n'
+              'def richErrMainElem (nrm : C → K) (eps ten fact : K) (a b o : C) : K :=\n  ' + '\n  '.join(lets + [ret]))
+        for k in keys:
+            status[k] = {'ok': True}
+    except (Unsupported, IndexError, KeyError, AttributeError) as ex:
+        for k in keys:
+            status[k] = {'ok': False, 'error': str(ex)}
+            if k in baseline:
+                u.add(k, baseline[k]['text'])
+    return u
+
 
 def gen_ndscipy(status, baseline):
     u = Unit('NdScipy.lean', '''/- GENERATED by translator/py2lean.py from src/numdifftools/nd_scipy.py — do not edit -/
@@ -1228,7 +1310,7 @@ def main(update_baseline=False):
     status = {}
     units = []
     del EXTRA_UNITS[:]
-    for gen in (gen_logrule, gen_steps, gen_guards, gen_bicomplex, gen_dea3, gen_ndscipy):
+    for gen in (gen_logrule, gen_steps, gen_guards, gen_bicomplex, gen_dea3, gen_richerr, gen_ndscipy):
         try:
             units.append(gen(status, baseline))
         except Exception as ex:     # whole-unit failure (class missing, syntax error ...)
